@@ -282,25 +282,49 @@ func checkWrapperGetSet(p *Prog, r *Report) {
 		arg := c.Common().Args[1]
 		good := false
 		why := ""
-		if vc, _ := callOf(arg); vc != nil && vc.Common().StaticCallee() != nil {
+		// one source of the stored value: reflect.ValueOf(v), or the field
+		// type's zero value on a path where v == nil was established
+		okSource := func(v ssa.Value, at *ssa.BasicBlock, viaEdgeFrom *ssa.BasicBlock) (bool, string) {
+			vc, _ := callOf(v)
+			if vc == nil || vc.Common().StaticCallee() == nil {
+				return false, ""
+			}
 			switch fullName(vc.Common().StaticCallee()) {
 			case "reflect.ValueOf":
-				good = vc.Common().Args[0] == ssa.Value(sf.Params[2])
-				why = "stores reflect.ValueOf(v) for the given v"
+				return vc.Common().Args[0] == ssa.Value(sf.Params[2]), "stores reflect.ValueOf(v) for the given v"
 			case "reflect.(Value).Elem":
-				// zero value under v == nil
-				for _, ef := range expandFacts(factsAt(c.Block())) {
+				facts := factsAt(at)
+				if viaEdgeFrom != nil {
+					facts = append(facts, factsAt(viaEdgeFrom)...)
+				}
+				for _, ef := range expandFacts(facts) {
 					if bo, ok := ef.Cond.(*ssa.BinOp); ok && bo.Op == token.EQL && ef.Truth && bo.X == ssa.Value(sf.Params[2]) && isNilConst(bo.Y) {
-						good = true
-						why = "stores the field type's zero value for an untyped nil"
+						return true, "stores the field type's zero value for an untyped nil"
 					}
 				}
 			}
+			return false, ""
+		}
+		if phi, isPhi := arg.(*ssa.Phi); isPhi {
+			// the two sources merged before one Set
+			good = len(phi.Edges) > 0
+			for i, e := range phi.Edges {
+				ok, w := okSource(e, phi.Block().Preds[i], phi.Block().Preds[i])
+				if !ok {
+					good = false
+				}
+				why = w
+			}
+			if good {
+				why = "stores reflect.ValueOf(v), or the field type's zero value for an untyped nil"
+			}
+		} else {
+			good, why = okSource(arg, c.Block(), nil)
 		}
 		r.decide(good, "C17.set-stores-given", "setField:"+p.describe(c), p.pos(c.Pos()), why,
 			"Wrapper.setField stores something other than the value it was given (e.g. a copy or a freshly allocated pointer): a typed nil no longer reads back as nil, or Get returns a different object than was set")
 	})
-	r.floor("reflect.Set calls in setField", n, 2)
+	r.floor("reflect.Set calls in setField", n, 1)
 	// tag agreement (both compare the key with the json tag): see C20.names; repeat here
 	for _, f := range []*ssa.Function{gf, sf} {
 		good := false
